@@ -89,7 +89,7 @@ func localInts(xs []int) *Val {
 }
 
 func checkRSWhole(c *Ctx, r *Report) {
-	r.Rule("S-RSWHOLE", "ReedSolomonEncoder.Encode and ReedSolomonDecoder.Decode, folded from source together with every function of the package they call (generator cache, GenericGFPoly arithmetic, Euclid, Chien search, Forney), agree with the checker's own field arithmetic on complete small domains: Encode leaves the data symbols in place and appends exactly the remainder of x^r d(x) by the generator for every data word of the listed (field, k, r); Decode returns without error and leaves exactly the codeword for every error pattern of weight <= floor(r/2) on the listed (field, k, r) - over GF(16) with generator base 1 (the Aztec parameter field) and base 0 (the QR convention on the small field), and over both 256-element fields for weight <= 1", 8)
+	r.Rule("S-RSWHOLE", "ReedSolomonEncoder.Encode and ReedSolomonDecoder.Decode, folded from source together with every function of the package they call (generator cache, GenericGFPoly arithmetic, Euclid, Chien search, Forney), agree with the checker's own field arithmetic on complete small domains: Encode leaves the data symbols in place and appends exactly the remainder of x^r d(x) by the generator for every data word of the listed (field, k, r); Decode returns without error and leaves exactly the codeword for every error pattern of weight <= floor(r/2) on the listed (field, k, r) - over GF(16) with generator base 1 (the Aztec parameter field) and base 0 (the QR convention on the small field), including full-length words (k + r = 15), and over both 256-element fields for weight <= 1", 8)
 	efd, ep := c.funcDeclOf("common/reedsolomon", "ReedSolomonEncoder.Encode")
 	dfd, dp := c.funcDeclOf("common/reedsolomon", "ReedSolomonDecoder.Decode")
 	if efd == nil || dfd == nil {
@@ -108,6 +108,7 @@ func checkRSWhole(c *Ctx, r *Report) {
 	qr := newRefGF(0x11D, 256, 0)
 	dm := newRefGF(0x12D, 256, 1)
 	encDoms := []dom{
+		{gf16b1, "GF(16)/0x13 base 1", 13, 2, 0, 300},
 		{gf16b1, "GF(16)/0x13 base 1", 1, 1, 0, 0}, {gf16b1, "GF(16)/0x13 base 1", 1, 3, 0, 0}, {gf16b1, "GF(16)/0x13 base 1", 2, 2, 0, 0}, {gf16b1, "GF(16)/0x13 base 1", 2, 4, 0, 0},
 		{gf16b0, "GF(16)/0x13 base 0", 2, 3, 0, 0},
 		{qr, "GF(256)/0x11D base 0", 1, 2, 0, 0}, {dm, "GF(256)/0x12D base 1", 1, 3, 0, 0},
@@ -115,6 +116,8 @@ func checkRSWhole(c *Ctx, r *Report) {
 	decDoms := []dom{
 		{gf16b1, "GF(16)/0x13 base 1", 2, 2, 1, 0}, {gf16b1, "GF(16)/0x13 base 1", 2, 4, 2, 0},
 		{gf16b0, "GF(16)/0x13 base 0", 2, 4, 2, 0}, {gf16b0, "GF(16)/0x13 base 0", 3, 3, 1, 0},
+		// full-length words: k + r = |F| - 1
+		{gf16b1, "GF(16)/0x13 base 1", 13, 2, 1, 0}, {gf16b0, "GF(16)/0x13 base 0", 12, 3, 1, 0},
 		{qr, "GF(256)/0x11D base 0", 2, 2, 1, 0}, {dm, "GF(256)/0x12D base 1", 2, 3, 1, 0},
 	}
 	if c.Tier == "thorough" {
@@ -135,16 +138,25 @@ func checkRSWhole(c *Ctx, r *Report) {
 		field := d.g.fieldVal()
 		enc := &Val{K: VStruct, Ptr: true, Local: true, Fields: map[string]*Val{"field": field, "cachedGenerators": {K: VList, Local: true, L: []*Val{field.Fields["one"]}}}}
 		total := 1
-		for i := 0; i < d.k; i++ {
+		for i := 0; i < d.k && total < 1<<24; i++ {
 			total *= d.g.size
+		}
+		if d.words > 0 {
+			total = d.words // a full-length shape: a structured family of data words (every symbol value at every position)
 		}
 		bad := ""
 		folds := 0
 		for w := 0; w < total && bad == ""; w++ {
 			data := make([]int, d.k)
-			for i, x := 0, w; i < d.k; i++ {
-				data[d.k-1-i] = x % d.g.size
-				x /= d.g.size
+			if d.words > 0 {
+				// word w: value (w % size) at position (w / size) % k, a second value two places on
+				data[(w/d.g.size)%d.k] = w % d.g.size
+				data[(w/d.g.size+2)%d.k] ^= (w*7 + 3) % d.g.size
+			} else {
+				for i, x := 0, w; i < d.k; i++ {
+					data[d.k-1-i] = x % d.g.size
+					x /= d.g.size
+				}
 			}
 			word := localInts(append(append([]int{}, data...), make([]int, d.r)...))
 			// stale parity area: Encode must overwrite all of it
